@@ -418,6 +418,14 @@ class Check:
                   self.proof['obligations'], self.evaluations, len(self.nontrivial),
                   len(new), len(self.known_hits), time.time() - self.t0))
         sys.stdout.flush()
+        # a thread of the code under test that never ends (a stopped script that spins, say) must
+        # not keep the check from ending once its verdict is out
+        import threading
+        stray = [t for t in threading.enumerate()
+                 if t is not threading.main_thread() and t.is_alive() and not t.daemon]
+        if stray:
+            sys.stderr.flush()
+            os._exit(exit_code)
         sys.exit(exit_code)
 
 
